@@ -417,6 +417,21 @@ func c05Completion(c *core.Ctx) {
 					exist = true
 				}
 			}
+			// a set already known to be empty on this path (dominating `len(set) == 0`) has been looked at
+			for _, cnd := range core.CondsAt(r.Block()) {
+				f := core.FactOf(cnd)
+				if !(f.Op == "==" && (f.A == "0" || f.B == "0")) && !(f.Op == "<=" && f.B == "0") && !(f.Op == "<" && f.B == "1") {
+					continue
+				}
+				for x := range core.BackwardReachPure(cnd.V) {
+					if isFieldOf(x, "missingHashes") {
+						miss = true
+					}
+					if isFieldOf(x, "existingNodes") {
+						exist = true
+					}
+				}
+			}
 			c.Check(miss && exist, "C05/completion-test-covers-both-work-sets", fmt.Sprintf("checkIsSynced/true-return#%d", n), r.Pos(),
 				"`synced` is computed from both missingHashes and existingNodes",
 				"`synced` can be reported without looking at both missingHashes and existingNodes: nodes still waiting to be processed or requested are forgotten")
